@@ -859,6 +859,64 @@ Section NumCorollaries.
   Proof. split; [apply non_trainable_num_unwrap | apply non_trainable_num_count]. Qed.
 End NumCorollaries.
 
+(* ---------- wrappers constructed under eqx.filter_vmap ---------- *)
+Section VmappedP.
+  Context {A : Type} (O : NumOps A).
+  Variables Sp T : Type.
+  Variable bij_of : T -> option (bcls * list nat).
+  Variable fn_of : Sp -> option fid.
+  Variable tuple_tag : T.
+  Notation vtree := (@vtree A Sp T).
+  Notation wapply := (wapply O Sp T bij_of fn_of tuple_tag).
+
+  Lemma mapM_ext_in {X Y} (f g : X -> option Y) l : (forall x, In x l -> f x = g x) -> mapM f l = mapM g l.
+  Proof.
+    induction l as [|x l IH]; intros H; cbn; [reflexivity|].
+    rewrite (H x (or_introl eq_refl)), IH; [reflexivity|]. intros y Hy. apply H. right. exact Hy.
+  Qed.
+
+  (* the position of _dummy among the dynamic fields *)
+  Definition dummy_of (k : wlabel) (l : list vtree) : option (akind * tensor A) :=
+    match snd k, l with
+    | BijReparam, [_; _; Arr kd d] => Some (kd, d)
+    | Lambda, [_; _; _; Arr kd d] => Some (kd, d)
+    | _, _ => None
+    end.
+
+  (* A wrapper constructed under eqx.filter_vmap (its _dummy, an integer array, has a leading axis of size n) unwraps to
+     the STACK of the unwrapped slices: slice every array field along axis 0, unwrap the resulting unbatched (or less
+     batched) wrapper, stack.  Iterating gives any number of vmap levels. *)
+  Lemma wapply_vmapped k (l : list vtree) kd d n sh :
+    dummy_of k l = Some (kd, d) -> is_array kd = true -> tshape d = n :: sh ->
+    wapply k l =
+    match mapM (fun i => match mapM (slice_tree Sp T i) l with Some li => wapply k li | None => None end) (seq 0 n) with
+    | Some (r0 :: rs) => Some (stack_like Sp T n r0 (r0 :: rs))
+    | _ => None
+    end.
+  Proof.
+    intros Hd Hk Hs. unfold dummy_of in Hd. unfold Tree.wapply at 1.
+    destruct (snd k) eqn:Ek; try discriminate.
+    - destruct l as [|a l]; try discriminate. destruct l as [|b l]; try discriminate. destruct l as [|c l]; try discriminate.
+      destruct c as [kd' d'| | | |]; try discriminate. destruct l; try discriminate.
+      inversion Hd; subst kd' d'. rewrite Hs. cbn [vmapn].
+      erewrite mapM_ext_in; [reflexivity|]. intros i _. cbn [mapM].
+      destruct (slice_tree Sp T i a) as [a'|]; [|reflexivity].
+      destruct (slice_tree Sp T i b) as [b'|]; [|reflexivity].
+      cbn [slice_tree]. rewrite Hk. unfold slice_t. rewrite Hs.
+      unfold Tree.wapply. rewrite Ek. cbn [tshape]. reflexivity.
+    - destruct l as [|a l]; try discriminate. destruct l as [|b l]; try discriminate. destruct l as [|c l]; try discriminate.
+      destruct l as [|e l]; try discriminate.
+      destruct e as [kd' d'| | | |]; try discriminate. destruct l; try discriminate.
+      inversion Hd; subst kd' d'. rewrite Hs. cbn [vmapn].
+      erewrite mapM_ext_in; [reflexivity|]. intros i _. cbn [mapM].
+      destruct (slice_tree Sp T i a) as [a'|]; [|reflexivity].
+      destruct (slice_tree Sp T i b) as [b'|]; [|reflexivity].
+      destruct (slice_tree Sp T i c) as [c'|]; [|reflexivity].
+      cbn [slice_tree]. rewrite Hk. unfold slice_t. rewrite Hs.
+      unfold Tree.wapply. rewrite Ek. cbn [tshape]. reflexivity.
+  Qed.
+End VmappedP.
+
 (* ---------- concrete instances used by the non-vacuity examples of Props/C12.v and Props/C14.v ---------- *)
 Definition ZOps : NumOps Z :=
   {| n_add := Z.add; n_sub := Z.sub; n_mul := Z.mul; n_div := Z.div; n_neg := Z.opp; n_abs := Z.abs; n_sign := Z.sgn;
